@@ -52,7 +52,7 @@ def w9_cases(ctx, n, n_src=None):
 
 
 def corpus_cases(ctx, v, n_files=0, all_files=False, n_w3=0, w4=True, w1=True, modes=0, w3_size=1.0,
-                 max_file_bytes=None, w4_filter=None, w1_max_bytes=None):
+                 max_file_bytes=None, w4_filter=None, w1_max_bytes=None, max_w4_bytes=None):
     """List of case descriptors for interpreter v (deterministic in ctx.seed)."""
     cases = []
     if w1:
@@ -93,6 +93,8 @@ def corpus_cases(ctx, v, n_files=0, all_files=False, n_w3=0, w4=True, w1=True, m
             cases.extend(gen_w4.odd_filename_cases(pyver(v)))
         t = gen_w4.templates(pyver(v), ctx.tier)
         for i, (id_, _s, _m, _o) in enumerate(t):
+            if max_w4_bytes and len(_s) > max_w4_bytes:
+                continue
             if w4_filter is None or w4_filter(id_):
                 cases.append({"k": "w4", "i": i, "tier": ctx.tier})
     return cases
